@@ -369,6 +369,27 @@ def op_to_meshtri_unused(m, rng):
     return None, {}
 
 
+def op_to_meshtri_large(_m, rng):
+    """a quadrilateral mesh with more than 46341 points (v0 * nv + v1 exceeds 2^31): two small named boundaries on two sides
+    through to_meshtri, both styles; only the vertex pairs of the tagged facets are compared"""
+    from skfem import MeshQuad1
+    from skfem.generic_utils import OrientedBoundary
+    m = MeshQuad1.init_tensor(np.linspace(0, 1, 220), np.linspace(0, 1, 220))
+    left = m.facets_satisfying(lambda x: x[0] == 0)[:5]
+    top = m.facets_satisfying(lambda x: x[1] == 1)[-5:]
+    m = m.with_boundaries({'left': left, 'top': OrientedBoundary(top, np.zeros(len(top), dtype=int))})
+    for style in (None, 'x'):
+        M = m.to_meshtri(style=style)
+        what = 'to_meshtri-large' + ('-x' if style else '')
+        for nm, b in m.boundaries.items():
+            g = np.asarray(M.boundaries[nm])
+            need(len(g) == len(b) and g.min() >= 0 and g.max() < M.facets.shape[1], what + ':boundary-index-range',
+                 lambda: f'{nm}: {g.tolist()} with {M.facets.shape[1]} facets')
+            need(np.array_equal(M.facets[:, g], m.facets[:, np.sort(np.asarray(b))]), what + ':boundary',
+                 lambda: f'{nm}: tagged facets have other vertex pairs')
+    return None, {'points': int(m.p.shape[1])}
+
+
 def op_line_product(_m, rng):
     """MeshLine1 * MeshLine1: exactly the products of two cells"""
     lx, cx = rand_line(rng)
